@@ -68,15 +68,6 @@ impl<'a, W: std::io::Write> WriteSpecImpl for &'a mut W {
         mut_ref_future(*self) == mut_ref_future(*o) && (**self).snk_eq(&**o)
     }
 }
-#[verifier::external_body]
-pub broadcast proof fn axiom_snk_eq_refl<W: std::io::Write>(w: &W)
-    ensures #[trigger] w.snk_eq(w)
-{}
-#[verifier::external_body]
-pub broadcast proof fn axiom_snk_eq_trans<W: std::io::Write>(a: &W, b: &W, c: &W)
-    requires #[trigger] a.snk_eq(b), #[trigger] b.snk_eq(c)
-    ensures a.snk_eq(c)
-{}
 
 // ---- std::io::Read / BufRead ---------------------------------------------------------------
 // Ghost view: remaining() = the bytes this reader will still deliver (absent I/O errors);
@@ -156,16 +147,7 @@ pub open spec fn advanced<R: std::io::Read>(o: &R, n: &R, k: int) -> bool {
 
 // The two axioms about src_eq.  Sound because every ReadSpecImpl::src_eq in this file and in the
 // overlay is a conjunction of equalities and of src_eq on the inner reader.
-#[verifier::external_body]
-pub broadcast proof fn axiom_src_eq_refl<R: std::io::Read>(r: &R)
-    ensures #[trigger] r.src_eq(r)
-{}
 
-#[verifier::external_body]
-pub broadcast proof fn axiom_src_eq_trans<R: std::io::Read>(a: &R, b: &R, c: &R)
-    requires #[trigger] a.src_eq(b), #[trigger] b.src_eq(c)
-    ensures a.src_eq(c)
-{}
 
 // ---- byteorder shims (R10) -----------------------------------------------------------------
 pub mod shim {
@@ -399,3 +381,28 @@ pub proof fn axiom_tz_pow2(k: nat)
 
 #[verifier::external_body]
 pub fn fmt_stub() -> String { String::new() }
+
+// ---- the frame-relation axioms (in their own module so that every module, including the crate root,
+// can `broadcast use` them) ---------------------------------------------------------------------
+pub mod ax {
+    use vstd::prelude::*;
+    use crate::{ReadSpec, WriteSpec};
+    #[verifier::external_body]
+    pub broadcast proof fn axiom_snk_eq_refl<W: std::io::Write>(w: &W)
+        ensures #[trigger] w.snk_eq(w)
+    {}
+    #[verifier::external_body]
+    pub broadcast proof fn axiom_snk_eq_trans<W: std::io::Write>(a: &W, b: &W, c: &W)
+        requires #[trigger] a.snk_eq(b), #[trigger] b.snk_eq(c)
+        ensures a.snk_eq(c)
+    {}
+    #[verifier::external_body]
+    pub broadcast proof fn axiom_src_eq_refl<R: std::io::Read>(r: &R)
+        ensures #[trigger] r.src_eq(r)
+    {}
+    #[verifier::external_body]
+    pub broadcast proof fn axiom_src_eq_trans<R: std::io::Read>(a: &R, b: &R, c: &R)
+        requires #[trigger] a.src_eq(b), #[trigger] b.src_eq(c)
+        ensures a.src_eq(c)
+    {}
+}
